@@ -554,7 +554,9 @@ Lemma split_is_restriction g e sites s t' : geometry_unsorted g e sites (Some s)
 Proof.
   intros H. destruct (geometry_unsorted_inv _ _ _ _ _ H) as [q [Eq [Hl ->]]].
   exists (with_ind (raw_geom g sites q)). split; [now apply (geometry_unsorted_intro g e sites None)|].
-  cbn. unfold gsize. cbn. rewrite gather_length. repeat split; reflexivity.
+  intros idx. unfold with_ind, gsplit, gmap, gsize, raw_geom;
+    cbn [g_shank g_col g_row g_flag g_x g_y g_shift g_adc g_ind].
+  repeat split; try reflexivity; now rewrite gather_length.
 Qed.
 
 (* ---- sorting commutes with the restriction ---- *)
@@ -582,11 +584,12 @@ Proof.
   cbn [where_eq_from length seq map filter].
   rewrite Z.add_0_r, Z.sub_diag. cbn [Z.to_nat nth].
   rewrite IH, <- seq_shift, map_map.
-  assert (E : filter (fun j => nth (Z.to_nat (j - (k + 1))) v 0 =? s)
-                     (map (fun i => k + 1 + Z.of_nat i) (seq 0 (length v)))
+  assert (E : forall l : list nat,
+              filter (fun j => nth (Z.to_nat (j - (k + 1))) v 0 =? s)
+                     (map (fun i => k + 1 + Z.of_nat i) l)
             = filter (fun j => nth (Z.to_nat (j - k)) (a :: v) 0 =? s)
-                     (map (fun x => k + Z.of_nat (S x)) (seq 0 (length v)))).
-  { induction (seq 0 (length v)) as [|i l IHl]; [reflexivity|]. cbn [map filter].
+                     (map (fun x => k + Z.of_nat (S x)) l)).
+  { clear IH. induction l as [|i l IHl]; [reflexivity|]. cbn [map filter].
     replace (Z.to_nat (k + 1 + Z.of_nat i - (k + 1))) with i by lia.
     replace (Z.to_nat (k + Z.of_nat (S i) - k)) with (S i) by lia. cbn [nth].
     replace (k + 1 + Z.of_nat i) with (k + Z.of_nat (S i)) by lia.
@@ -620,7 +623,8 @@ Proof.
   induction idx as [|a idx IH] using rev_ind; [reflexivity|].
   rewrite app_length, Nat.add_comm. cbn [length plus]. rewrite zrange_S, map_app. cbn [map].
   f_equal.
-  - rewrite <- IH at 2. apply map_ext_in. intros i Hi. apply in_zrange in Hi.
+  - transitivity (map (znth idx) (zrange (length idx))); [|exact IH].
+    apply map_ext_in. intros i Hi. apply in_zrange in Hi.
     unfold znth. apply app_nth1. lia.
   - unfold znth. rewrite Nat2Z.id, app_nth2, Nat.sub_diag by lia. reflexivity.
 Qed.
@@ -643,7 +647,7 @@ Proof.
                                      (P := fun k => 0 <= k < Z.of_nat (gsize t')).
     + intros a b Pa Pb Hab.
       assert (Hk : forall k, 0 <= k < Z.of_nat (gsize t') -> sort_key t' k = sort_key t (znth idx k)).
-      { intros k Hk. unfold sort_key, t'. cbn. rewrite !znth_gather by (rewrite <- Hsz; exact Hk). reflexivity. }
+      { intros k Hk. unfold sort_key, t', with_ind, gmap; cbn [g_shank g_row g_col]. rewrite !znth_gather by (rewrite <- Hsz; exact Hk). reflexivity. }
       unfold before in *. rewrite <- !Hk by assumption.
       destruct Hab as [Hab|[He Hl]]; [now left|right]. split; [exact He|].
       apply znth_increasing; [exact Hinc|lia|exact Hl|rewrite <- Hsz; lia].
@@ -653,4 +657,38 @@ Proof.
   - rewrite (Permutation_filter_ _ _ _ (lexsort_perm t)).
     rewrite (Permutation_map (znth idx) (lexsort_perm t')), Hsz, map_znth_zrange.
     unfold idx. rewrite where_eq_filter, Hlen. reflexivity.
+Qed.
+
+Lemma rect_column t n c : rect t n -> In c (columns t) -> length c = n.
+Proof. unfold rect. rewrite Forall_forall. auto. Qed.
+
+Lemma split_sort_commute g e sites s t t' :
+  geometry_unsorted g e sites None = Some t -> geometry_unsorted g e sites (Some s) = Some t' ->
+  map (znth (where_eq s (g_shank t))) (lexsort t') = filter (fun j => znth (g_shank t) j =? s) (lexsort t).
+Proof.
+  intros H H'.
+  destruct (geometry_unsorted_rect _ _ _ _ _ H) as [Hr _].
+  destruct (geometry_unsorted_inv _ _ _ _ _ H) as [q [Eq [Hl ->]]].
+  destruct (geometry_unsorted_inv _ _ _ _ _ H') as [q' [Eq' [_ ->]]].
+  rewrite Eq in Eq'. inversion Eq'; subst q'. cbn [gsplit] in *.
+  set (t := with_ind (raw_geom g sites q)) in *.
+  assert (E : with_ind (gmap (gather (where_eq s (g_shank (raw_geom g sites q)))) (raw_geom g sites q))
+            = with_ind (gmap (gather (where_eq s (g_shank t))) t)) by reflexivity.
+  rewrite E. apply sort_commutes_with_split.
+  apply (rect_column t (gsize t) _ Hr). unfold columns. now left.
+Qed.
+
+Lemma sorted_geometry_facts g e sites split t' inds :
+  geometry g e sites split true = Some (t', inds) ->
+  exists t, geometry g e sites split false = Some (t, zrange (gsize t)) /\
+            inds = lexsort t /\
+            columns t' = map (gather inds) (columns t) /\ g_ind t' = inds /\
+            rect t (gsize t) /\ rect t' (gsize t).
+Proof.
+  intros H. destruct (geometry_sorted_inv _ _ _ _ _ _ H) as [t [Hf [-> ->]]].
+  destruct (geometry_unsorted_of_false _ _ _ _ _ _ Hf) as [Hu _].
+  destruct (geometry_unsorted_rect _ _ _ _ _ Hu) as [Hr Hind].
+  exists t. repeat split; try assumption.
+  - now apply sorted_ind_is_index.
+  - rewrite <- (lexsort_length t). apply rect_gmap_gather.
 Qed.
